@@ -22,6 +22,23 @@ from __future__ import annotations
 from hypothesis import strategies as st
 
 OP_KINDS = ["test.op", "test.pureop", "unreg.alpha", "unreg.beta", "test.op"]
+# kinds with declared memory effects (used by C13); a check selects its vocabulary with `use_kinds`
+EFFECT_KINDS = ["test.pureop", "test.op_with_memread", "test.op_with_memwrite", "test.op", "unreg.alpha",
+                "test.pureop", "test.op_with_symbol", "test.op_with_memread"]
+ACTIVE_KINDS = OP_KINDS
+
+
+class use_kinds:
+    def __init__(self, kinds):
+        self.kinds = kinds
+
+    def __enter__(self):
+        global ACTIVE_KINDS
+        self.old, ACTIVE_KINDS = ACTIVE_KINDS, self.kinds
+
+    def __exit__(self, *a):
+        global ACTIVE_KINDS
+        ACTIVE_KINDS = self.old
 ATTR_NAMES = ["a", "b", "value", "sym_name", "x.y"]
 PROP_NAMES = ["prop1", "prop2", "prop3"]
 
@@ -78,11 +95,23 @@ def _mk_op(rec, successors=(), term=False):
     if term:
         return TestTermOp.create(result_types=rtypes, attributes=attributes, properties=props,
                                  successors=list(successors))
-    kind = OP_KINDS[rec.get("k", 0) % len(OP_KINDS)]
+    kind = ACTIVE_KINDS[rec.get("k", 0) % len(ACTIVE_KINDS)]
     if kind == "test.op":
         return TestOp.create(result_types=rtypes, attributes=attributes, properties=props)
     if kind == "test.pureop":
         return TestPureOp.create(result_types=rtypes, attributes=attributes, properties=props)
+    if kind in ("test.op_with_memread", "test.op_with_memwrite", "test.op_with_symbol"):
+        from xdsl.dialects.builtin import StringAttr
+        from xdsl.dialects.test import TestReadOp, TestSymbolOp, TestWriteOp
+        cls = {"test.op_with_memread": TestReadOp, "test.op_with_memwrite": TestWriteOp,
+               "test.op_with_symbol": TestSymbolOp}[kind]
+        if cls is TestSymbolOp:
+            _cache["symctr"] = _cache.get("symctr", 0) + 1
+            props = {"sym_name": StringAttr(f"sym{_cache['symctr']}")}
+            attributes = {k: v for k, v in attributes.items() if k != "sym_name"}
+        else:
+            props = {}
+        return cls.create(result_types=rtypes, attributes=attributes, properties=props)
     return unreg_cls(kind).create(result_types=rtypes, attributes=attributes, properties=props)
 
 
@@ -165,6 +194,7 @@ def build(rec) -> Built:
     from xdsl.dialects.builtin import ModuleOp
     out = Built()
     plan: list = []
+    _cache["symctr"] = 0
     tops = [_build_op(o, out, plan) for o in rec.get("ops", [])]
     out.module = ModuleOp(tops)
     body = out.module.body.block if rec.get("graph") else None
